@@ -387,6 +387,9 @@ def check(ctx):
     ctx.ob("C07.R3", ts, "a new epoch state starts at within-epoch time 0 and global time "
                          "= time before the epoch", ok_ts, detail=short(rts or ()))
 
+    from .c16 import clock_obligations
+    clock_obligations(ctx, "C07.R3")
+
     # ------------------------------------------------------------- R4 tuning
     if tn:
         name, t, node, cond, idx = tn[0]
